@@ -64,6 +64,10 @@ def run(F, tier):
     # field level: what each field parser accepts, what it stores and what it writes back, against the reference
     accept.u6(rep, F, "fields")
     accept.u7(rep, F, "fields")
+    import re as _re
+    mh = ("message-helpers", _re.compile(r"^messages::\w+::\w+::parse_(?!from_block4)"), 1)
+    accept.u6(rep, F, mh)
+    accept.u7(rep, F, mh)
     emit.e1(rep, F, "fields")
     rep.programs = 3 * len(tms)
     rep.cells = sum(x["instances"] for x in rep.rules.values())
